@@ -152,6 +152,8 @@ def make_config(root, sess, parameter_mode=True):
         fp = fp + '#' + part
     elif part:
         kw['part'] = part
+    if root.get('config_name'):
+        kw['name'] = root['config_name']
     return Config(Path(root.get('_data_dir') or sess['data_dir']), fp if not root.get('file_as_path') or part else Path(fp), global_vars=gv,
                   context=build_context(root, lab_root), namespace=root.get('namespace'), **kw)
 
@@ -305,6 +307,7 @@ def exec_step(step, sess, chains, audit):
         mocks, explicit_values = {}, []
         arbitrary = step.get('arbitrary_values')
         mock_classes = []
+        mocked_real = []
         for i, inp in enumerate([x for x in ts['inputs'] if x['form'] not in ('pattern', 'pattern_all')]):
             key = inp['registry_key'] if inp.get('access') == 'registry' and False else None
             target = None
@@ -337,13 +340,37 @@ def exec_step(step, sess, chains, audit):
                     continue
                 mocks[mk] = value
                 explicit_values.append(value)
+                mocked_real.append((it, mk))
             else:
                 explicit_values.append(it)     # absent optional input: default
         base = Path(_tf.mkdtemp(prefix='helper-', dir=sess['lab_root'])) if step.get('explicit_base_dir') else None
         obs['mock_classes'] = mock_classes
+        listed = [cls]
+        if step.get('use_test_chain') and step.get('also_listed') and mocked_real:
+            # a mocked task that is ALSO listed among the real tasks (e.g. the whole pipeline list is passed): it is mocked all the same.
+            # Its parameters are supplied as well (only if that does not change what the tested task receives).
+            it, mk_ = mocked_real[step['also_listed'] % len(mocked_real)]
+            # only when the mock is registered under the very name the listed class gets in the helper's chain (no namespace part)
+            its, extra, ok_ = type(it).LAB_SPEC, {}, type(it) is not cls and (mk_ is type(it) or mk_ == type(it).slugname)
+            for p in its['params']:
+                nic = p.get('name_in_config') or p['name']
+                v = it.params[p['name']]
+                for q in ts['params']:
+                    if (q.get('name_in_config') or q['name']) == nic and rt.received_canon(received[q['name']]) != rt.received_canon(v):
+                        ok_ = False
+                if nic in params and rt.received_canon(params[nic]) != rt.received_canon(v):
+                    ok_ = False
+                extra[nic] = v
+                if nic in step.get('drop_params', []):
+                    ok_ = False
+            if ok_:
+                for nic, v in extra.items():
+                    params.setdefault(nic, v)
+                listed = [cls, type(it)] if step['also_listed'] % 2 else [type(it), cls]
+                obs['also_listed'] = type(it).__name__
         try:
             if step.get('use_test_chain'):
-                tc = TestChain([cls], mock_tasks=mocks, parameters=params, base_dir=base)
+                tc = TestChain(listed, mock_tasks=mocks, parameters=params, base_dir=base)
                 helper = tc[cls.fullname(tc.config)]
             else:
                 helper = create_test_task(cls, input_tasks=mocks, parameters=params, base_dir=base)
